@@ -1,5 +1,6 @@
-"""C20: see DESIGN.md section 5. Collector-core property: theorems in coq/Props/C20.v, tie by lock-step."""
-from props import core
+"""C20: see DESIGN.md section 5. Collector-core property: theorems in coq/Props/C20.v, tie by lock-step,
+plus the static no-shared-state theorem over the regenerated item tables (coq-api/Props/C20Static.v)."""
+from props import core, static_facts
 
 SETUP_KEY = core.SETUP_KEY
 setup = core.setup
@@ -7,6 +8,9 @@ setup = core.setup
 
 def run(chk, tier, seed):
     core.run_core(chk, "C20", tier, seed)
+    trusted = list(chk.trusted)
+    static_facts.statics_obligations(chk)
+    chk.trusted = trusted + [t for t in chk.trusted if t not in trusted]
 
 
 def replay(path):
